@@ -180,7 +180,9 @@ func runConc(p *concParams, prefix []int, extra func(w *harness.World, cr *concR
 	vsched.WantWhere = p.Where
 	defer func() { vsched.WantWhere = false }()
 	var clock int64
-	tick := func() int64 { clock++; return clock }
+	// the history clock and the history itself are state shared by the clients: an event on
+	// the harness object orders them in the happens-before fingerprints
+	tick := func() int64 { vsched.Event(vsched.OpYield, vsched.ObjHarness, true); clock++; return clock }
 	r := vsched.Run(vsched.Options{Prefix: prefix, ReverseOthers: p.Rev}, func() {
 		w := harness.NewWorld(harness.Config{Name: p.Cfg})
 		if p.NoMerge {
@@ -234,6 +236,7 @@ func runConc(p *concParams, prefix []int, extra func(w *harness.World, cr *concR
 					}
 					durable := func(b model.Batch, call int64, err error) {
 						if err == nil && (wo != nil || t == "tr") {
+							vsched.Event(vsched.OpStorage, vsched.ObjStorage, false)
 							cr.Dur = append(cr.Dur, durRec{Batch: b, Call: call, Return: clock, AckPos: len(w.Stor.Ops)})
 						}
 					}
@@ -395,7 +398,10 @@ func errStr(err error) string {
 // oracle and the no-deadlock / no-panic verdicts.
 func concExec(p *concParams, prefix []int, extra func(w *harness.World, cr *concRun)) *explore.Exec {
 	r, cr := runConc(p, prefix, extra)
-	x := &explore.Exec{Points: r.Points, Verdict: r.Verdict.String(), Diverged: r.Diverged, Steps: r.Steps}
+	x := &explore.Exec{Points: r.Points, Verdict: r.Verdict.String(), Diverged: r.Diverged, Steps: r.Steps, HBFinal: r.HBFinal, PrunedAt: r.PrunedAt}
+	if r.Verdict == vsched.Pruned {
+		return x
+	}
 	x.Viol = append(x.Viol, cr.Viol...)
 	if r.Diverged != "" {
 		return x
